@@ -190,6 +190,38 @@ def stage_popen(ctx, stats, sigs):
                 [(a[0], len(a[1]) if len(a) > 1 else 0) for a in script], sizes[:3], msg), dict(script=letters, size=size, thread_overtakes_after_empty_queue=adv))
             break
     stats['popen_runs'] = n
+    # the reader thread and read_nonblocking run truly interleaved (a switch interval of a microsecond): a child that writes 300 KB in small
+    # pieces while the consumer polls in a tight loop; nothing may fall between the two threads
+    import sys as _sys
+    old_si = _sys.getswitchinterval()
+    _sys.setswitchinterval(1e-6)
+    try:
+        lost = None
+        for k in range(12 if ctx.quick() else 150):
+            total = 300000
+            pp_ = pexpect.popen_spawn.PopenSpawn([common.PY, '-c', 'import sys\nfor i in range(600): sys.stdout.write("%04d" % (i % 10000) * 125); sys.stdout.flush()'], timeout=5) \
+                if hasattr(pexpect, 'popen_spawn') else None
+            if pp_ is None:
+                from pexpect import popen_spawn as _ps
+                pp_ = _ps.PopenSpawn([common.PY, '-c', 'import sys\nfor i in range(600): sys.stdout.write("%04d" % (i % 10000) * 125); sys.stdout.flush()'], timeout=5)
+            got_, t0, ended_ = [], time.time(), False
+            while time.time() - t0 < 20:
+                try:
+                    got_.append(pp_.read_nonblocking(4096, 0))
+                except pexpect.EOF:
+                    ended_ = True; break
+            pp_.proc.wait(); pp_.proc.stdout.close()
+            data_ = b''.join(got_)
+            want_ = b''.join(b'%04d' % i * 125 for i in range(600))
+            if data_ != want_ or not ended_:
+                lost = (k, len(data_), len(want_), ended_)
+                break
+        sigs.add(('popen-race', lost is None))
+        if lost:
+            common.report(ctx, 'popen/thread-race', 'popen transport, reader thread and consumer interleaved at a 1 microsecond switch interval (run %d): delivered %d of %d bytes, '
+                          'EOF reported: %s' % lost, dict(script='child writes 300000 bytes in 600 pieces; read_nonblocking(4096, 0) in a loop until EOF'))
+    finally:
+        _sys.setswitchinterval(old_si)
     # a fault on the pipe (os.read in the reader thread fails once, after the first chunk): whatever the transport makes of it, nothing the
     # child wrote is delivered twice and the reader is not left waiting for ever
     import pexpect.popen_spawn as PO
